@@ -77,7 +77,10 @@ def check_congruence(desc):
     loc_d = _loc_space(g, dshape)
     if loc_t.number_of_support_elements != g.number_of_elements or loc_d.number_of_support_elements != g.number_of_elements:
         return {"nontrivial": False, "labels": ["skipped_partial_localised"]}
-    A_loc = og.dense(og.raw_like(fam, op, loc_d, loc_d, loc_t, k, parameters=par))
+    if fam == "sparse":
+        A_loc = og.boundary_operator(fam, op, loc_d, loc_d, loc_t, parameters=par).weak_form().to_sparse().toarray()
+    else:
+        A_loc = og.dense(og.raw_like(fam, op, loc_d, loc_d, loc_t, k, parameters=par))
     labels = ["congruence", f"{fam}_{op}", f"{tshape}x{dshape}"]
     nontrivial = False
     worst = 0.0
@@ -102,7 +105,10 @@ def check_congruence(desc):
                     Tl = Tl @ sp.dof_transformation
                 if (abs(Tl - Th)).max() != 0:
                     _fail(f"map_to_full_grid/{sp.identifier}", f"{nm} space map_to_full_grid differs from the map rebuilt from local2global/multipliers")
-            A = og.dense(og.boundary_operator(fam, op, sd_, sd_, st, k, parameters=par))
+            if fam == "sparse":
+                A = og.boundary_operator(fam, op, sd_, sd_, st, parameters=par).weak_form().to_sparse().toarray()
+            else:
+                A = og.dense(og.boundary_operator(fam, op, sd_, sd_, st, k, parameters=par))
             R = Tt.T @ A_loc @ Td
             R = np.asarray(R)
             if A.shape != R.shape:
@@ -218,6 +224,17 @@ def check_prolongation(desc):
     kw = {}
     if kindname in ("P1", "RWG") and desc.get("ibd"):
         kw["include_boundary_dofs"] = True
+    seg_label = "whole"
+    if desc.get("seg") is not None:
+        # spaces on a segment of a multi-domain grid: the refined grid inherits the domain indices, so the fine segment space contains the coarse one
+        present = sorted(set(int(x) for x in np.asarray(g.domain_indices)))
+        if len(present) > 1:
+            kw["segments"] = [present[int(desc["seg"]) % len(present)]]
+            seg_label = "segment"
+            if kindname == "RWG" and not sg.support_is_manifold(g, {"segments": kw["segments"]}):
+                return {"nontrivial": False, "labels": ["skipped"]}
+    if len(sg.model_dof_entities(g, kindname, dict(kw))) == 0:
+        return {"nontrivial": False, "labels": ["skipped"]}  # options select no entity (recorded finding D14 of C09)
     coarse = bempp_cl.api.function_space(g, kind, deg, **kw)
     fine = bempp_cl.api.function_space(gf, kind, deg, **kw)
     P, resid = _prolongation(coarse, fine)
@@ -249,7 +266,7 @@ def check_prolongation(desc):
         _fail(sig, f"||P^T A_fine P - A_coarse|| = {['%.1e' % e for e in errs]} on ladder {ladder}; top rung above {top_thr:.0e}")
     if errs[0] > 1e-9 and errs[-1] > 0.2 * errs[0]:
         _fail(sig + "/nodecay", f"error does not decay with the quadrature orders: {['%.1e' % e for e in errs]}")
-    return {"nontrivial": True, "labels": ["prolongation", how, kindname, f"{fam}_{op}", f"levels{desc.get('levels', 1)}"],
+    return {"nontrivial": True, "labels": ["prolongation", how, kindname, f"{fam}_{op}", f"levels{desc.get('levels', 1)}", "prolongation_" + seg_label],
             "measured": {"errors": errs, "expansion_residual": resid}}
 
 
@@ -282,15 +299,22 @@ def shards(tier, seed=1):
 
     out = []
     if tier == "quick":
-        combos = rot(_all_combos(), seed, 3)
-        if not any(c[0] == "maxwell" for c in combos):
-            combos = combos[:2] + [("maxwell", "E" if seed % 2 else "M", "snc", "rwg")]
+        # one shard per assembler code path of core/numba_kernels.py (default_scalar, the three hypersingular assemblers, Maxwell E and M,
+        # the sparse identity and Laplace-Beltrami kernels); inside the default_scalar family the kernel/shape-set combination rotates
+        # with the seed. The runner packs the shards into few interpreters.
+        scal = [c for c in _all_combos() if c[1] != "W" and c[0] != "maxwell"]
+        combos = rot(scal, seed, 2)
+        combos += [("laplace", "W", "p1", "p1"), ("helmholtz", "W", "p1", "p1"), ("modified", "W", "p1", "p1"),
+                   ("maxwell", "E", "snc", "rwg"), ("maxwell", "M", "snc", "rwg"),
+                   ("sparse", "I") + rot([("p0", "p0"), ("p1", "p1"), ("p0", "p1"), ("p1", "p0"), ("snc", "rwg")], seed, 1)[0],
+                   ("sparse", "LB", "p1", "p1")]
         for fam, op, t, d in combos:
-            out.append({"check": "congruence", "fam": fam, "op": op, "tshape": t, "dshape": d, "examples": 12, "budget_s": 300})
+            out.append({"check": "congruence", "fam": fam, "op": op, "tshape": t, "dshape": d, "examples": 30, "budget_s": 150})
         fam, op, kinds = rot([("laplace", "V", ["DP0"]), ("laplace", "W", ["P1"]), ("laplace", "K", ["P1"])], seed, 1)[0]
-        out.append({"check": "prolongation", "fam": fam, "op": op, "kinds": kinds, "examples": 4, "budget_s": 300, "light": True})
+        out.append({"check": "prolongation", "fam": fam, "op": op, "kinds": kinds, "examples": 4, "budget_s": 240, "light": True})
     else:
-        for fam, op, t, d in _all_combos():
+        for fam, op, t, d in _all_combos() + [("sparse", "I", "p0", "p0"), ("sparse", "I", "p1", "p1"), ("sparse", "I", "p0", "p1"),
+                                             ("sparse", "I", "p1", "p0"), ("sparse", "I", "snc", "rwg"), ("sparse", "LB", "p1", "p1")]:
             out.append({"check": "congruence", "fam": fam, "op": op, "tshape": t, "dshape": d, "examples": 60, "budget_s": 1800})
         for fam, op, kinds in [("laplace", "V", ["DP0"]), ("laplace", "V", ["P1"]), ("laplace", "K", ["P1"]), ("laplace", "W", ["P1"]),
                                ("helmholtz", "V", ["DP0"]), ("helmholtz", "W", ["P1"]), ("maxwell", "E", ["RWG"]), ("maxwell", "M", ["RWG"])]:
@@ -304,7 +328,7 @@ def strategy(spec):
     fam, op = spec["fam"], spec["op"]
 
     def kstrat():
-        if fam == "laplace":
+        if fam in ("laplace", "sparse"):
             return st.none()
         if fam == "modified":
             return st.sampled_from([[0.5, 0], [2.0, 0], [7.0, 0]])
@@ -341,6 +365,10 @@ def strategy(spec):
         elif kk is not None:
             kk = draw(st.sampled_from([[0.5, 0], [2.0, 0], [3.0, 0]]))
         d = {"mesh": mesh, "kind": kind, "how": how, "fam": fam, "op": op, "k": kk, "ibd": (not closed)}
+        if draw(st.booleans()):
+            d["mesh"]["domains"] = {"mode": "patch", "n": 2, "seed": draw(st.integers(0, 99)), "values": [0, 3, 7, 12]}
+            d["seg"] = draw(st.integers(0, 1))
+            d["ibd"] = draw(st.booleans()) if kind != "RWG" else False
         if how == "refine" and mesh and draw(st.integers(0, 3)) == 0:
             d["levels"] = 2
             d["mesh"]["max_elems"] = 8
